@@ -1,5 +1,5 @@
 """C06 — holds expire in [E, E+2 s], notify the holder and free capacity."""
-from props import engine_common, ms_common
+from props import engine_common, engine2_common, ms_common
 from props.c01 import FINISH
 
 THEOREMS = ["Slock.C06.reachable_HInv", "Slock.C06.C06_deadline_grant", "Slock.C06.expiryDeadline_eq", "Slock.C06.C06_update_restarts",
@@ -14,6 +14,8 @@ def run(ctx):
     ctx.audit("Slock.Properties.C06", THEOREMS)
     if ctx.tier == "thorough":
         ctx.leanchecker("Slock.Properties.C06")
+    # scheduled ahead / not late (general, unshortened) / record identity / wheel invariant carried down to the record-level model (stage 2)
+    engine2_common.audit_transfer2(ctx, engine2_common.THEOREMS_SIMT2_C06)
     engine_common.run_engine(ctx, ["C06:"], n_quick=3000, n_thorough=60000)
     ms_common.run_ms(ctx, 'hold')
     ms_common.run_ms_update(ctx, ["C06:"])
